@@ -247,6 +247,7 @@ type thread struct {
 	fn        Val
 	args      []Val
 	started   bool
+	quiescingInInjection bool
 }
 
 const (
@@ -311,6 +312,8 @@ type Interp struct {
 	yieldCount int
 	crashStack []string
 	preemptBudget int
+	spawnBudget   int
+	injThread     *thread
 }
 
 type mutexState struct {
@@ -647,7 +650,7 @@ func (in *Interp) wakeBlocked() {
 // block suspends the current thread until some other thread made progress.
 func (in *Interp) block(why string) {
 	me := in.cur
-	if in.inInjection {
+	if in.inInjection && me == in.injThread && !me.quiescingInInjection {
 		in.endPath("infeasible", "injected event would block: "+why)
 	}
 	me.state = tBlocked
